@@ -23,7 +23,7 @@ ASSUMPTIONS = [
     "virtual clock; AF_UNIX socketpairs as in C04",
     "a 'probe' of an entry point is a maximal run of identical frames with no delivery in between",
 ]
-MUST = ["large_retry_budgets", "prefix_drop_then_refused", "same_command_repeated", "prefix_connections_refused", "prefix_idle_connection_dropped", "loop_change_previous_loop_open", "two_piece_answer_in_time", "lone_fragment_every_attempt", "slow_answer_in_time", "full_timeout_after_corrupt_answer", "final_silent_exact", "prefix_success_after_drops", "prefix_exhausted", "prefix_rejected", "prefix_send_error",
+MUST = ["corrupted_answer_twice_at_once", "large_retry_budgets", "prefix_drop_then_refused", "same_command_repeated", "prefix_connections_refused", "prefix_idle_connection_dropped", "loop_change_previous_loop_open", "two_piece_answer_in_time", "lone_fragment_every_attempt", "slow_answer_in_time", "full_timeout_after_corrupt_answer", "final_silent_exact", "prefix_success_after_drops", "prefix_exhausted", "prefix_rejected", "prefix_send_error",
         "prefix_recv_error", "loop_change", "connect_probe", "discover_probe", "search_probe", "search_answered", "detected_family_probe",
         "connected_then_silent"]
 EXHAUSTIVE = {"quick": True, "thorough": True}
@@ -32,7 +32,7 @@ EPS = 1e-6
 
 
 def classes(R):
-    cs = ["ok0", "okslow", "okfrag", "okdrop", "connref", "dropref", "exh", "fragexh", "senderr", "recverr", "badlate_ok", "badlate_exh"]
+    cs = ["ok0", "okslow", "okfrag", "okdrop", "connref", "dropref", "exh", "fragexh", "senderr", "recverr", "badlate_ok", "badlate_exh", "baddup_exh"]
     cs += [f"ok{k}" for k in range(1, R + 1)]
     cs += [f"rej{j}" for j in range(0, R + 1)]
     return cs
@@ -68,6 +68,8 @@ def script_for(cls, R):
         return ["badsumlate", ["delay", "0.8T"]]
     if cls == "badlate_exh":       # corrupted answer half a timeout late, then silence
         return ["badsumlate"] + ["drop"] * (R + 1)
+    if cls == "baddup_exh":        # the first transmission is answered at once by the same corrupted frame twice, then silence
+        return ["baddup"] + ["drop"] * (R + 1)
     if cls == "senderr":
         return ["now", "now", "now", "now", "now"]
     if cls == "recverr":
@@ -192,6 +194,22 @@ def check_history(sc, run, part: Part):
                                 f"timeout), yet the request ended {rec['outcome']} at +{round(rec['t1'] - rec['t0'], 6)}"))
                 else:
                     part.count("full_timeout_after_corrupt_answer")
+        elif cls == "baddup_exh":
+            # two corrupted datagrams in the same instant use up (at most) the attempt they answer: never more than R + 1 transmissions,
+            # and on UDP every transmission made after them is given its whole timeout
+            after = [t for t in txt if t > rec["t0"] + EPS or txt.index(t) > 0]
+            if len(txt) > R + 1:
+                out.append((f"C05/{tr}/silent-request-budget",
+                            f"{ctx}: corrupted answer delivered twice at once, then silence: {len(txt)} transmissions at "
+                            f"{[round(t - rec['t0'], 6) for t in txt]} (relative) with retries={R}"))
+            elif tr == "udp" and (any(abs((b - a) - T) > EPS for a, b in zip(after, after[1:])) or
+                                  (after and abs(rec["t1"] - (after[-1] + T)) > EPS)):
+                out.append((f"C05/{tr}/timeout-cut-short",
+                            f"{ctx}: corrupted answer delivered twice at once, then silence: transmissions at {[round(t - rec['t0'], 6) for t in txt]}, "
+                            f"end at +{round(rec['t1'] - rec['t0'], 6)}: the transmissions after the corrupted pair are not {T} apart / the failure is "
+                            f"not reported {T} after the last one"))
+            else:
+                part.count("corrupted_answer_twice_at_once")
         elif cls == "dropref":
             if tr == "tcp":
                 conns = [e for e in engine.events_of_call(run, rec["id"]) if e[1] == "connect"]
